@@ -37,6 +37,9 @@ QUICK = [
     # a take period spanning several intervals is prorated per interval: every split-feasible dispatch is feasible for the whole problem
     # capacities as time series (symbolic sign pattern: one- or two-directional per interval / over the whole horizon), extra costs, discounting
     _c('caps_timeseries_discounted', 'caps_ts', dict(T=2, wacc=True), 'h'),
+    # periodic asset whose duration blocks coincide with the split intervals (every interval grid starts exactly on a duration border)
+    _c('periodic_contract_split_on_duration_borders', 'periodic', dict(T=8, kind='contract', ec=True, duration='4h'), '4h'),
+    _c('periodic_transport_split_on_duration_borders', 'periodic', dict(T=8, kind='transport', eff=0.5, duration='4h'), '4h'),
     _c('take_spans_intervals', 'uncoupled', dict(T=4, take=(1, 4)), '2h', True),
     _c('take_spans_intervals_asset_with_own_dates', 'uncoupled', dict(T=4, take=(0, 4), own_dates=True), '2h', True),
     _c('orderbook_last_trailing', 'orderbook', dict(T=4, storage=False, ob_last=True, orders=((0, 1, 2.0), (2, 4, -1.5), (3, 4, 1.0))), '2h'),
@@ -64,6 +67,8 @@ def cases(tier, seed):
     lst = THOROUGH if tier == 'thorough' else QUICK
     out = [(cid, dict(shape=SHAPE_OF[cid], kw=dict(kw), split=split, coupled=coupled)) for cid, kw, split, coupled in lst]
     # the same split asked for in other words: interval size spelled differently, prices as a dict of arrays instead of a DataFrame
+    # a fixed window given as a date that is a grid point: the split set-up pins the same steps as the unsplit one (C15's machinery)
+    out.append(('fixed_window_date_on_grid_point', dict(shape='two_node', kw=dict(T=4), split='2h', coupled=('c15', ['date', 2, 0]))))
     out.append(('interval_size_spelled_in_minutes', dict(shape='two_node', kw=dict(T=4), split='2h', coupled=('forms', 'size', '120min'))))
     out.append(('interval_size_day_vs_24h', dict(shape='uncoupled', kw=dict(T=4, freq='12h', wacc=True), split='d', coupled=('forms', 'size', '24h'))))
     out.append(('prices_as_dict_of_arrays', dict(shape='uncoupled', kw=dict(T=4, wacc=True), split='2h', coupled=('forms', 'prices', 'dict'))))
@@ -210,6 +215,11 @@ def split_mapping_check(sc, tg, ivs):
 
 def run_case(case_id, tier, seed, shape, kw, split, coupled):
     rec = lpsem.Rec(PROP, case_id)
+    if isinstance(coupled, (tuple, list)) and coupled[0] == 'c15':
+        from . import c15
+        res = c15.run_case(case_id, tier, seed, shape, dict(kw), list(coupled[1]), split=split)
+        res['prop'] = PROP
+        return res
     if isinstance(coupled, (tuple, list)) and coupled[0] == 'forms':
         return run_forms(rec, seed, shape, dict(kw), split, coupled[1], coupled[2])
     eao = lift.import_eao()
@@ -265,6 +275,9 @@ def run_case(case_id, tier, seed, shape, kw, split, coupled):
 
 def observe(case, kwargs, env, rq):
     from .. import obs
+    if isinstance(kwargs.get('coupled'), (tuple, list)) and kwargs['coupled'][0] == 'c15':
+        from . import c15
+        return c15.observe(case, dict(shape=kwargs['shape'], kw=kwargs['kw'], win=list(kwargs['coupled'][1]), split=kwargs['split']), env, rq)
     if isinstance(kwargs.get('coupled'), (tuple, list)) and kwargs['coupled'][0] == 'forms':
         D = lift.Domain(theta=env)
         a, b = build_forms(D, kwargs['shape'], dict(kwargs['kw']), kwargs['split'], kwargs['coupled'][1], kwargs['coupled'][2])
@@ -308,6 +321,9 @@ def judge(case, kwargs, cand, ans):
         return (True, 'raises on an in-domain input: ' + ans['error'][:200]) if 'error' in ans else (False, 'no exception')
     if 'error' in ans:
         return None, ans['error']
+    if isinstance(kwargs.get('coupled'), (tuple, list)) and kwargs['coupled'][0] == 'c15':
+        from . import c15
+        return c15.judge(case, dict(shape=kwargs['shape'], kw=kwargs['kw'], win=list(kwargs['coupled'][1]), split=kwargs['split']), cand, ans)
     o = ans['obs']
     if info.get('kind') == 'forms':
         from .. import replay
